@@ -89,11 +89,11 @@ def evaluate(a):
         base_path = BASE[bname][3]
         found = []
         for opname, argv in operations(ip, base_path, BASE[bname][2], wd, tier):
-            r = run_reader(argv, wd, 15)
+            r = run_reader(argv, wd, 10)
             if r.timeout:
-                r = run_reader(argv, wd, 150)
+                r = run_reader(argv, wd, 60)
                 if r.timeout:
-                    found.append(("C05|hang|%s" % opname.split(" -")[0] + "|" + opname, opname, "does not terminate within 150 s", argv))
+                    found.append(("C05|hang|%s" % opname.split(" -")[0] + "|" + opname, opname, "does not terminate within 60 s", argv))
                     continue
             if r.crashed:
                 found.append(("C05|%s|%s" % (r.crash_fingerprint(), opname.split()[0]), opname, r.err.decode("latin1")[-3000:], argv))
@@ -224,7 +224,7 @@ def main():
                                 "(aliasing, loops, type confusion), all table offsets for superblock pointers, all 16 type codes}. Deviation 2 (thorough): all pairs over inode+superblock "
                                 "fields of the minimal image x 3x3 values. Byte level: every metadata byte x {^1,^0x80,0,0xFF}; truncation at every length. Each variant is offered to "
                                 "rdsquashfs -l/-d/-s/-x/-c/-u (with and without -C -O -T -X), sqfs2tar, sqfsdiff (both orders). distinct = distinct (base, variant). "
-                                "Oracle: terminates (15 s, re-run alone at 150 s), no ASan report, no fatal signal, no abort; any exit status.")
+                                "Oracle: terminates (15 s, re-run alone at 150 s), no ASan report, no fatal signal, no abort; any exit status (timeouts 10 s, re-run alone at 60 s).")
         cr.assumptions += ["coverage-guided mutation (a sampling technique) is replaced by the exhaustive deviation-1/2 and byte-level families",
                            "output size of unpack limited to 64 MiB per file (RLIMIT_FSIZE) so that a huge declared size is an error, not a hang"]
     return cr.finish()
